@@ -40,6 +40,10 @@ const L_SETFIN: &str = "provision.set_provision_finished";
 const L_GETFIN: &str = "provision.get_provision_finished";
 const LABELS: [&str; 5] = [L_UPD, L_RESET, L_GET, L_SETFIN, L_GETFIN];
 
+/// a step normally takes well under 10 ms; a task that has neither parked nor returned after this long is stuck
+/// (the run is abandoned: all gates are released, the schedule is recorded as not replayable, the next run starts)
+const STUCK_AFTER: Duration = Duration::from_millis(2500);
+
 const MSG_R: &str = "rd-not-ready";
 const MSG_K: &str = "kk-not-ready";
 const MSG_L: &str = "ls-not-ready";
@@ -461,7 +465,7 @@ impl Run {
         } else {
             self.spawn_composite(name, a);
         }
-        match self.wait_outcome(name, snap, false, Duration::from_secs(6)) {
+        match self.wait_outcome(name, snap, false, STUCK_AFTER) {
             Outcome::Gate(l, n) => {
                 self.tasks.get_mut(name).unwrap().parked = Some((l, n));
                 Ok(true)
@@ -537,7 +541,7 @@ impl Run {
             self.emit_step(name_base(name), i, a, x, &out, extra, false);
             return Ok(out);
         }
-        let out = self.wait_outcome(name, snap, hint_done, Duration::from_secs(6));
+        let out = self.wait_outcome(name, snap, hint_done, STUCK_AFTER);
         if let Outcome::Gate(l, n) = out {
             self.tasks.get_mut(name).unwrap().parked = Some((l, n));
         }
@@ -601,7 +605,7 @@ impl Run {
                     all = false;
                 }
             }
-            if all || t0.elapsed() > Duration::from_secs(8) {
+            if all || t0.elapsed() > Duration::from_secs(4) {
                 break;
             }
             std::thread::sleep(Duration::from_millis(1));
@@ -731,6 +735,29 @@ fn run_replay(rt: &tokio::runtime::Runtime, spec: &Value, port: u16) {
             "tick" => run.tick(),
             "latch" => run.set_latch(x == "on"),
             "sleep" => std::thread::sleep(Duration::from_millis(s["ms"].as_u64().unwrap_or(1))),
+            "ask" => {
+                // a status query as a plain sequential step: it passes the query gates without parking (the first arrival
+                // at each is let through), so it needs no other query to be held anywhere
+                if !run.tasks.get("ls").map(|t| t.serving).unwrap_or(false) {
+                    verif::trace::emit(json!({"e": "Skip", "run": run.id, "k": run.k, "t": t, "i": i, "a": a}));
+                    continue;
+                }
+                run.gates.arm(L_GETFIN, 1);
+                run.gates.arm(L_GET, 1);
+                let q = run.query_tick(x, s["q"]["q"].as_u64());
+                match http_provision(run.port, Some(q.as_str()), true, STUCK_AFTER + Duration::from_millis(500)) {
+                    Ok((status, body)) => {
+                        let out = Outcome::Done;
+                        run.emit_step("q", i, "ask", x, &out, json!({"g": "ask", "op": "Q", "stage": 1, "exp": "ask", "extra": false,
+                            "sub": "-", "q": q, "qkind": x, "status": status, "body": body}), true);
+                    }
+                    Err(e) => {
+                        run.desync(format!("q{} ask: no answer ({})", i, e));
+                        stuck = true;
+                        break 'steps;
+                    }
+                }
+            }
             _ if !moves(s) => {} // qchan, file system calls: not actor messages
             _ => {
                 let name = key(s);
